@@ -492,16 +492,14 @@ def midpoints(x, dim=None):
 
 
 def isclose(x, y, rtol=None, atol=None, equal_nan=False):
-    """Element-wise |x - y| <= atol + rtol*|y| (scipp defaults rtol 1e-5, atol 1e-8 for dimensionless y)."""
+    """Element-wise |x - y| <= atol + rtol*|y| (scipp defaults rtol 1e-5, atol 1e-8 in the unit of y)."""
     x, y = V._as_var(x), V._as_var(y)
     if x.unit != y.unit:
         raise UnitError(f'isclose: units differ {x.unit} vs {y.unit}')
     if rtol is None:
         rtol = scalar(1e-5)
     if atol is None:
-        if y.unit not in (None, Unit()):
-            raise UnitError('isclose: atol must be given for data with a unit')
-        atol = scalar(1e-8)
+        atol = scalar(1e-8, unit=y.unit)  # real scipp: the default takes the unit of y
     if atol.unit != y.unit and not (atol.unit in (None, Unit()) and y.unit in (None, Unit())):
         raise UnitError(f'isclose: atol unit {atol.unit} vs {y.unit}')
     dims, shape = V._merge_dims(x, y)
